@@ -102,6 +102,23 @@ func (s Str) bytes() []*Term {
 	return r
 }
 
+// LazyArray: an array too large to materialise; cells exist once touched. Never copied by value.
+type LazyArray struct {
+	n     int64
+	elem  types.Type
+	cells map[int64]*Value
+}
+
+func (a *LazyArray) cell(i int64) *Value {
+	c := a.cells[i]
+	if c == nil {
+		c = new(Value)
+		*c = zero(a.elem)
+		a.cells[i] = c
+	}
+	return c
+}
+
 type Iface struct {
 	T types.Type
 	V Value
@@ -192,6 +209,10 @@ func zero(t types.Type) Value {
 	case *types.Pointer:
 		return (*Value)(nil)
 	case *types.Array:
+		if t.Len() > 1<<16 {
+			// huge table indexed sparsely (postingsBuilder.asciiPostings): cells are created on first touch
+			return &LazyArray{n: t.Len(), elem: t.Elem(), cells: map[int64]*Value{}}
+		}
 		a := make(Array, t.Len())
 		for i := range a {
 			a[i] = zero(t.Elem())
@@ -238,6 +259,8 @@ func zero(t types.Type) Value {
 // copyVal makes an unaliased copy of aggregates.
 func copyVal(v Value) Value {
 	switch v := v.(type) {
+	case *LazyArray:
+		panic(unsupported{"copy of a huge array by value"})
 	case Struct:
 		c := make(Struct, len(v))
 		for i, x := range v {
